@@ -6,19 +6,95 @@ package main
 import (
 	"fmt"
 	"math/big"
+	"os"
 	"sort"
 	"strings"
 )
 
 const (
 	SBool = "Bool"
-	SInt  = "Int" // references / type tags / mathematical integers in spec
-	SIdx  = "(_ BitVec 64)"
+	SInt  = "Int" // references / type tags / mathematical integers
 	SF32  = "(_ FloatingPoint 8 24)"
 	SF64  = "(_ FloatingPoint 11 53)"
 )
 
-func SBV(w int) string { return fmt.Sprintf("(_ BitVec %d)", w) }
+// Integer mode of the current pass. In bit-vector mode (default) every Go integer is a bit-vector of
+// its width. In int mode every Go integer is a mathematical Int confined to its type's range, and every
+// arithmetic result carries a no-overflow obligation. The mode is a property of the whole pass
+// (functions of the two modes are generated in separate passes).
+var gInt bool
+var SIdx = "(_ BitVec 64)"
+
+func setIntMode(on bool) {
+	gInt = on
+	if on {
+		SIdx = SInt
+	} else {
+		SIdx = "(_ BitVec 64)"
+	}
+}
+
+// SBV: sort of a Go integer of width w in the current mode.
+func SBV(w int) string {
+	if gInt {
+		return SInt
+	}
+	return fmt.Sprintf("(_ BitVec %d)", w)
+}
+
+// SBVraw: a real bit-vector sort regardless of mode (float bit patterns).
+func SBVraw(w int) string { return fmt.Sprintf("(_ BitVec %d)", w) }
+
+func pow2(k int) *big.Int { return new(big.Int).Lsh(big.NewInt(1), uint(k)) }
+
+func intLitBig(v *big.Int) Term {
+	if v.Sign() < 0 {
+		return Term{SInt, "(- " + new(big.Int).Neg(v).String() + ")"}
+	}
+	return Term{SInt, v.String()}
+}
+
+// intLitVal parses an Int literal term.
+func intLitVal(t Term) (*big.Int, bool) {
+	s := t.T
+	neg := false
+	if strings.HasPrefix(s, "(- ") && strings.HasSuffix(s, ")") {
+		neg = true
+		s = s[3 : len(s)-1]
+	}
+	if s == "" || strings.ContainsAny(s, " ()") {
+		return nil, false
+	}
+	for _, c := range s {
+		if c < '0' || c > '9' {
+			return nil, false
+		}
+	}
+	v, ok := new(big.Int).SetString(s, 10)
+	if !ok {
+		return nil, false
+	}
+	if neg {
+		v.Neg(v)
+	}
+	return v, true
+}
+
+// typeRange returns the inclusive range of a Go integer type of width w.
+func typeRange(w int, signed bool) (*big.Int, *big.Int) {
+	if signed {
+		hi := new(big.Int).Sub(pow2(w-1), big.NewInt(1))
+		lo := new(big.Int).Neg(pow2(w - 1))
+		return lo, hi
+	}
+	return big.NewInt(0), new(big.Int).Sub(pow2(w), big.NewInt(1))
+}
+
+// inTypeRange: formula lo <= t <= hi (int mode only).
+func inTypeRange(t Term, w int, signed bool) Term {
+	lo, hi := typeRange(w, signed)
+	return mkAnd(Term{SBool, "(<= " + intLitBig(lo).T + " " + t.T + ")"}, Term{SBool, "(<= " + t.T + " " + intLitBig(hi).T + ")"})
+}
 func SArr(i, e string) string {
 	return "(Array " + i + " " + e + ")"
 }
@@ -64,7 +140,194 @@ func arrParts(s string) (string, string) {
 	panic("arrParts: malformed " + s)
 }
 
+func bvLit(t Term) (*big.Int, int, bool) {
+	if t.S == SInt {
+		if v, ok := intLitVal(t); ok {
+			return v, 0, true
+		}
+		return nil, 0, false
+	}
+	if !strings.HasPrefix(t.T, "(_ bv") || strings.Count(t.T, "(") != 1 {
+		return nil, 0, false
+	}
+	var vs string
+	var w int
+	if n, _ := fmt.Sscanf(t.T, "(_ bv%s %d)", &vs, &w); n < 1 {
+		return nil, 0, false
+	}
+	f := strings.Fields(strings.TrimSuffix(strings.TrimPrefix(t.T, "(_ bv"), ")"))
+	if len(f) != 2 {
+		return nil, 0, false
+	}
+	v, ok := new(big.Int).SetString(f[0], 10)
+	if !ok {
+		return nil, 0, false
+	}
+	fmt.Sscanf(f[1], "%d", &w)
+	return v, w, true
+}
+
+var intOpMap = map[string]string{
+	"bvadd": "+", "bvsub": "-", "bvmul": "*",
+	"bvule": "<=", "bvsle": "<=", "bvult": "<", "bvslt": "<", "bvuge": ">=", "bvsge": ">=", "bvugt": ">", "bvsgt": ">",
+}
+
+// goDivInt: Go's truncated division on mathematical integers.
+func goDivInt(a, b Term) Term {
+	if bv, ok := intLitVal(b); ok && bv.Sign() > 0 {
+		if av, ok2 := intLitVal(a); ok2 {
+			return intLitBig(new(big.Int).Quo(av, bv))
+		}
+		return Term{SInt, fmt.Sprintf("(ite (>= %s 0) (div %s %s) (- (div (- %s) %s)))", a.T, a.T, b.T, a.T, b.T)}
+	}
+	return Term{SInt, fmt.Sprintf("(ite (>= %s 0) (ite (> %s 0) (div %s %s) (- (div %s (- %s)))) (ite (> %s 0) (- (div (- %s) %s)) (div (- %s) (- %s))))",
+		a.T, b.T, a.T, b.T, a.T, b.T, b.T, a.T, b.T, a.T, b.T)}
+}
+
+func appInt(sortOut string, op string, args []Term) (Term, bool) {
+	if m, ok := intOpMap[op]; ok && len(args) == 2 {
+		so := sortOut
+		if so != SBool {
+			so = SInt
+		}
+		return rawApp(so, m, args...), true
+	}
+	switch op {
+	case "bvneg":
+		if v, ok := intLitVal(args[0]); ok {
+			return intLitBig(new(big.Int).Neg(v)), true
+		}
+		return rawApp(SInt, "-", args[0]), true
+	case "bvudiv", "bvsdiv":
+		return goDivInt(args[0], args[1]), true
+	case "bvurem", "bvsrem":
+		q := goDivInt(args[0], args[1])
+		return Term{SInt, fmt.Sprintf("(- %s (* %s %s))", args[0].T, args[1].T, q.T)}, true
+	case "bvand":
+		// x & (2^k-1)  ==  x mod 2^k   (for non-negative x; callers guarantee via type range)
+		for i := 0; i < 2; i++ {
+			if m, ok := intLitVal(args[i]); ok && m.Sign() >= 0 {
+				mp := new(big.Int).Add(m, big.NewInt(1))
+				if mp.BitLen() > 0 && new(big.Int).And(mp, m).Sign() == 0 { // m+1 is a power of two
+					return Term{SInt, fmt.Sprintf("(mod %s %s)", args[1-i].T, mp.String())}, true
+				}
+				// single-bit mask 2^k: (x div 2^k) mod 2 * 2^k
+				if m.Sign() > 0 && new(big.Int).And(m, new(big.Int).Sub(m, big.NewInt(1))).Sign() == 0 {
+					return Term{SInt, fmt.Sprintf("(* %s (mod (div %s %s) 2))", m.String(), args[1-i].T, m.String())}, true
+				}
+				// contiguous mask (2^a-1)<<b
+				tz := int(m.TrailingZeroBits())
+				sh := new(big.Int).Rsh(m, uint(tz))
+				shp := new(big.Int).Add(sh, big.NewInt(1))
+				if new(big.Int).And(shp, sh).Sign() == 0 {
+					return Term{SInt, fmt.Sprintf("(* %s (mod (div %s %s) %s))", pow2(tz).String(), args[1-i].T, pow2(tz).String(), shp.String())}, true
+				}
+			}
+		}
+		return rawApp(SInt, "uf_bvand", args...), true
+	case "bvor":
+		return rawApp(SInt, "uf_bvor", args...), true
+	case "bvxor":
+		return rawApp(SInt, "uf_bvxor", args...), true
+	case "bvnot":
+		return rawApp(SInt, "uf_bvnot", args...), true
+	case "bvshl":
+		if k, ok := intLitVal(args[1]); ok && k.Sign() >= 0 && k.BitLen() < 16 {
+			return Term{SInt, fmt.Sprintf("(* %s %s)", args[0].T, pow2(int(k.Int64())).String())}, true
+		}
+		return rawApp(SInt, "uf_bvshl", args...), true
+	case "bvlshr", "bvashr":
+		if k, ok := intLitVal(args[1]); ok && k.Sign() >= 0 && k.BitLen() < 16 {
+			return Term{SInt, fmt.Sprintf("(div %s %s)", args[0].T, pow2(int(k.Int64())).String())}, true
+		}
+		return rawApp(SInt, "uf_bvshr", args...), true
+	}
+	return Term{}, false
+}
+
+// intModePreamble declares the uninterpreted stand-ins for bit operations in int mode.
+const intModePreamble = "(declare-fun uf_bvand (Int Int) Int)\n(declare-fun uf_bvor (Int Int) Int)\n(declare-fun uf_bvxor (Int Int) Int)\n(declare-fun uf_bvnot (Int) Int)\n(declare-fun uf_bvshl (Int Int) Int)\n(declare-fun uf_bvshr (Int Int) Int)"
+
+func rawApp(sortOut string, op string, args ...Term) Term {
+	var sb strings.Builder
+	sb.WriteByte('(')
+	sb.WriteString(op)
+	for _, a := range args {
+		sb.WriteByte(' ')
+		sb.WriteString(a.T)
+	}
+	sb.WriteByte(')')
+	return Term{sortOut, sb.String()}
+}
+
 func app(sortOut string, op string, args ...Term) Term {
+	if gInt && len(args) > 0 && args[0].S == SInt && strings.HasPrefix(op, "bv") {
+		// constant folding first
+		if len(args) == 2 {
+			if a, ok := intLitVal(args[0]); ok {
+				if b, ok2 := intLitVal(args[1]); ok2 {
+					switch op {
+					case "bvadd":
+						return intLitBig(new(big.Int).Add(a, b))
+					case "bvsub":
+						return intLitBig(new(big.Int).Sub(a, b))
+					case "bvmul":
+						return intLitBig(new(big.Int).Mul(a, b))
+					case "bvule", "bvsle":
+						return mkBool(a.Cmp(b) <= 0)
+					case "bvult", "bvslt":
+						return mkBool(a.Cmp(b) < 0)
+					case "bvuge", "bvsge":
+						return mkBool(a.Cmp(b) >= 0)
+					case "bvugt", "bvsgt":
+						return mkBool(a.Cmp(b) > 0)
+					}
+				}
+			}
+			if b, ok := intLitVal(args[1]); ok && b.Sign() == 0 && (op == "bvadd" || op == "bvsub") {
+				return args[0]
+			}
+			if a, ok := intLitVal(args[0]); ok && a.Sign() == 0 && op == "bvadd" {
+				return args[1]
+			}
+		}
+		if t, ok := appInt(sortOut, op, args); ok {
+			return t
+		}
+	}
+	// constant folding / identities for the common index arithmetic
+	if len(args) == 2 && (op == "bvadd" || op == "bvsub") {
+		a, wa, oka := bvLit(args[0])
+		b, wb, okb := bvLit(args[1])
+		switch {
+		case oka && okb && wa == wb:
+			if op == "bvadd" {
+				return bvConst(wa, new(big.Int).Add(a, b))
+			}
+			return bvConst(wa, new(big.Int).Sub(a, b))
+		case okb && b.Sign() == 0:
+			return args[0]
+		case oka && a.Sign() == 0 && op == "bvadd":
+			return args[1]
+		}
+	}
+	if len(args) == 2 && (op == "bvule" || op == "bvult" || op == "bvuge" || op == "bvugt") {
+		a, wa, oka := bvLit(args[0])
+		b, wb, okb := bvLit(args[1])
+		if oka && okb && wa == wb {
+			c := a.Cmp(b)
+			switch op {
+			case "bvule":
+				return mkBool(c <= 0)
+			case "bvult":
+				return mkBool(c < 0)
+			case "bvuge":
+				return mkBool(c >= 0)
+			case "bvugt":
+				return mkBool(c > 0)
+			}
+		}
+	}
 	var sb strings.Builder
 	sb.WriteByte('(')
 	sb.WriteString(op)
@@ -177,6 +440,9 @@ func mkIte(c, a, b Term) Term {
 }
 
 func bvConst(w int, v *big.Int) Term {
+	if gInt {
+		return intLitBig(v)
+	}
 	m := new(big.Int).Lsh(big.NewInt(1), uint(w))
 	x := new(big.Int).Mod(v, m)
 	if x.Sign() < 0 {
@@ -219,7 +485,7 @@ func zeroOf(s string) Term {
 	case s == SInt:
 		return intConst(0)
 	case isBV(s):
-		return bvInt(bvWidth(s), 0)
+		return Term{s, fmt.Sprintf("(_ bv0 %d)", bvWidth(s))}
 	case isFP(s):
 		return Term{s, "(_ +zero " + s[len("(_ FloatingPoint "):len(s)-1] + ")"}
 	case isArr(s):
@@ -259,8 +525,10 @@ type Decl struct {
 // QuantInfo: a Boolean symbol standing for a top-level quantified formula.
 type QuantInfo struct {
 	Exists bool
-	Var    string // unique bound variable name
+	Var    string // unique bound variable name (first variable)
 	Sort   string
+	Vars   []string // all bound variables (len >= 1)
+	Sorts  []string
 	Body   Term
 }
 
@@ -287,10 +555,30 @@ func (c *Ctx) AddInst(t Term) {
 
 // Quant declares a Boolean symbol equivalent to (forall/exists ((v sort)) body).
 func (c *Ctx) Quant(exists bool, v, sortS string, body Term) Term {
+	return c.QuantN(exists, []string{v}, []string{sortS}, body)
+}
+
+func (c *Ctx) QuantN(exists bool, vs, sorts []string, body Term) Term {
 	c.n++
 	name := fmt.Sprintf("Q!%d", c.n)
-	c.decls[name] = &Decl{Name: name, Sort: SBool, Quant: &QuantInfo{Exists: exists, Var: v, Sort: sortS, Body: body}, seq: c.n}
+	c.decls[name] = &Decl{Name: name, Sort: SBool, Quant: &QuantInfo{Exists: exists, Var: vs[0], Sort: sorts[0], Vars: vs, Sorts: sorts, Body: body}, seq: c.n}
 	return Term{SBool, name}
+}
+
+func (qi *QuantInfo) binders() string {
+	var sb strings.Builder
+	for i := range qi.Vars {
+		fmt.Fprintf(&sb, "(%s %s)", qi.Vars[i], qi.Sorts[i])
+	}
+	return sb.String()
+}
+
+func (qi *QuantInfo) subst(terms []string) string {
+	b := qi.Body.T
+	for i, v := range qi.Vars {
+		b = substToken(b, v, terms[i])
+	}
+	return b
 }
 
 // BoundVar returns a fresh unique bound-variable name.
@@ -355,6 +643,9 @@ func (c *Ctx) Fresh(hint, sortS string) Term {
 func (c *Ctx) Define(hint string, t Term) Term {
 	// do not name trivial terms
 	if len(t.T) < 24 && !strings.ContainsAny(t.T, " ") {
+		return t
+	}
+	if strings.HasPrefix(t.T, "(_ bv") && strings.Count(t.T, "(") == 1 {
 		return t
 	}
 	c.n++
@@ -433,56 +724,131 @@ func (c *Ctx) Script(logic string, asserts []Term, inst bool) (string, bool) {
 	}
 	drain()
 	if inst && len(quants) > 0 {
-		// iterate: instantiating bodies may pull in further quantified symbols
-		done := map[string]bool{}
-		for round := 0; round < 4; round++ {
-			var pending []*Decl
-			for _, q := range quants {
-				if !done[q.Name] {
-					pending = append(pending, q)
+		// Instantiation terms per sort: registered ground terms, skolems, and (iteratively) the index
+		// terms of array reads that appear in instantiated bodies — a bounded form of E-matching.
+		termSet := map[string]map[string]bool{} // sort -> terms
+		addTerm := func(sortS, t string) bool {
+			m := termSet[sortS]
+			if m == nil {
+				m = map[string]bool{}
+				termSet[sortS] = m
+			}
+			if m[t] || len(m) > 300 {
+				return false
+			}
+			m[t] = true
+			return true
+		}
+		if os.Getenv("GOVC_NO_PROG_TERMS") == "" {
+			for _, t := range c.InstTerms {
+				addTerm(t.S, t.T)
+			}
+		}
+		maxRounds := 5
+		if v := os.Getenv("GOVC_INST_ROUNDS"); v != "" {
+			fmt.Sscanf(v, "%d", &maxRounds)
+		}
+		harvestRounds := 2
+		if v := os.Getenv("GOVC_HARVEST_ROUNDS"); v != "" {
+			fmt.Sscanf(v, "%d", &harvestRounds)
+		}
+		harvest := func(text string) {
+			for _, ix := range selectIndexTerms(text) {
+				if s := c.guessSort(ix, quants); s != "" {
+					addTerm(s, ix)
 				}
 			}
-			if len(pending) == 0 {
-				break
-			}
-			for _, q := range pending {
-				done[q.Name] = true
+		}
+		for _, a := range asserts {
+			harvest(a.T)
+		}
+		applied := map[string]bool{} // quant name + "|" + term
+		skolemDone := map[string]bool{}
+		total := 0
+		for round := 0; round < maxRounds; round++ {
+			progress := false
+			// snapshot of quantifiers known so far
+			qs := append([]*Decl{}, quants...)
+			for _, q := range qs {
 				qi := q.Quant
 				sk := q.Name + "!sk"
-				var terms []string
-				for _, t := range c.InstTerms {
-					if t.S == qi.Sort {
-						terms = append(terms, t.T)
-					}
-				}
-				for _, q2 := range quants {
-					if q2.Quant.Sort == qi.Sort {
-						terms = append(terms, q2.Name+"!sk")
-					}
-				}
 				pos, neg := q.Name, "(not "+q.Name+")"
 				if qi.Exists {
 					pos, neg = neg, pos
 				}
-				// pos => body[t] (forall) ; for exists: !Q => !body[t]
-				for _, t := range terms {
-					b := substToken(qi.Body.T, qi.Var, t)
+				if !skolemDone[q.Name] {
+					skolemDone[q.Name] = true
+					progress = true
+					var sks []string
+					for i := range qi.Vars {
+						skn := sk
+						if i > 0 {
+							skn = fmt.Sprintf("%s%d", sk, i)
+						}
+						sks = append(sks, skn)
+						addTerm(qi.Sorts[i], skn)
+					}
+					bsk := qi.subst(sks)
+					if qi.Exists {
+						instAsserts = append(instAsserts, "(=> "+neg+" "+bsk+")")
+					} else {
+						instAsserts = append(instAsserts, "(=> "+neg+" (not "+bsk+"))")
+					}
+					visit(bsk)
+					harvest(bsk)
+				}
+				// tuples of instantiation terms (cartesian product, capped)
+				var lists [][]string
+				for i := range qi.Vars {
+					var ts []string
+					for t := range termSet[qi.Sorts[i]] {
+						ts = append(ts, t)
+					}
+					sort.Strings(ts)
+					if len(qi.Vars) > 1 && len(ts) > 24 {
+						ts = ts[:24]
+					}
+					lists = append(lists, ts)
+				}
+				var tuples [][]string
+				var rec func(i int, cur []string)
+				rec = func(i int, cur []string) {
+					if len(tuples) > 1500 {
+						return
+					}
+					if i == len(lists) {
+						tuples = append(tuples, append([]string{}, cur...))
+						return
+					}
+					for _, t := range lists[i] {
+						rec(i+1, append(cur, t))
+					}
+				}
+				rec(0, nil)
+				for _, tup := range tuples {
+					key := q.Name + "|" + strings.Join(tup, "|")
+					if applied[key] || total > 6000 {
+						continue
+					}
+					applied[key] = true
+					total++
+					progress = true
+					b := qi.subst(tup)
 					if qi.Exists {
 						instAsserts = append(instAsserts, "(=> "+pos+" (not "+b+"))")
 					} else {
 						instAsserts = append(instAsserts, "(=> "+pos+" "+b+")")
 					}
 					visit(b)
+					if round < harvestRounds {
+						harvest(b)
+					}
 				}
-				bsk := substToken(qi.Body.T, qi.Var, sk)
-				if qi.Exists {
-					instAsserts = append(instAsserts, "(=> "+neg+" "+bsk+")")
-				} else {
-					instAsserts = append(instAsserts, "(=> "+neg+" (not "+bsk+"))")
-				}
-				visit(bsk)
 			}
 			drain()
+			if !progress {
+				break
+			}
 		}
 	}
 	var ds []*Decl
@@ -501,7 +867,13 @@ func (c *Ctx) Script(logic string, asserts []Term, inst bool) (string, bool) {
 	// skolems first (they may be referenced by instantiated bodies of earlier symbols)
 	if inst {
 		for _, q := range quants {
-			fmt.Fprintf(&sb, "(declare-const %s!sk %s)\n", q.Name, q.Quant.Sort)
+			for i := range q.Quant.Vars {
+				if i == 0 {
+					fmt.Fprintf(&sb, "(declare-const %s!sk %s)\n", q.Name, q.Quant.Sorts[i])
+				} else {
+					fmt.Fprintf(&sb, "(declare-const %s!sk%d %s)\n", q.Name, i, q.Quant.Sorts[i])
+				}
+			}
 		}
 		// quantified symbols are plain Booleans, declared up front (bodies of other symbols may mention them)
 		for _, q := range quants {
@@ -516,7 +888,7 @@ func (c *Ctx) Script(logic string, asserts []Term, inst bool) (string, bool) {
 				if d.Quant.Exists {
 					kw = "exists"
 				}
-				fmt.Fprintf(&sb, "(define-fun %s () Bool (%s ((%s %s)) %s))\n", d.Name, kw, d.Quant.Var, d.Quant.Sort, d.Quant.Body.T)
+				fmt.Fprintf(&sb, "(define-fun %s () Bool (%s (%s) %s))\n", d.Name, kw, d.Quant.binders(), d.Quant.Body.T)
 			}
 		case d.Def != nil:
 			fmt.Fprintf(&sb, "(define-fun %s () %s %s)\n", d.Name, d.Sort, d.Def.T)
@@ -539,6 +911,109 @@ func (c *Ctx) Script(logic string, asserts []Term, inst bool) (string, bool) {
 	return sb.String(), len(quants) > 0
 }
 
+// selectIndexTerms returns the index arguments of all (select A I) applications in an s-expression text.
+func selectIndexTerms(text string) []string {
+	var out []string
+	for i := 0; i+8 <= len(text); i++ {
+		if text[i] != '(' || !strings.HasPrefix(text[i:], "(select ") {
+			continue
+		}
+		j := i + len("(select ")
+		// first argument
+		e1 := sexpEnd(text, j)
+		if e1 < 0 || e1 >= len(text) || text[e1] != ' ' {
+			continue
+		}
+		e2 := sexpEnd(text, e1+1)
+		if e2 < 0 {
+			continue
+		}
+		out = append(out, text[e1+1:e2])
+	}
+	return out
+}
+
+// sexpEnd returns the index just past the s-expression starting at i.
+func sexpEnd(s string, i int) int {
+	if i >= len(s) {
+		return -1
+	}
+	if s[i] != '(' {
+		j := i
+		for j < len(s) && s[j] != ' ' && s[j] != ')' && s[j] != '(' {
+			j++
+		}
+		return j
+	}
+	depth := 0
+	for j := i; j < len(s); j++ {
+		switch s[j] {
+		case '(':
+			depth++
+		case ')':
+			depth--
+			if depth == 0 {
+				return j + 1
+			}
+		}
+	}
+	return -1
+}
+
+// guessSort determines the sort of a ground term text (symbols, bit-vector literals and bvadd/bvsub of those).
+func (c *Ctx) guessSort(t string, quants []*Decl) string {
+	t = strings.TrimSpace(t)
+	if t == "" {
+		return ""
+	}
+	if t[0] != '(' {
+		if d, ok := c.decls[t]; ok {
+			return d.Sort
+		}
+		if i := strings.Index(t, "!sk"); i > 0 {
+			if d, ok := c.decls[t[:i]]; ok && d.Quant != nil {
+				k := 0
+				if rest := t[i+3:]; rest != "" {
+					fmt.Sscanf(rest, "%d", &k)
+				}
+				if k < len(d.Quant.Sorts) {
+					return d.Quant.Sorts[k]
+				}
+			}
+		}
+		if _, err := fmt.Sscanf(t, "%d", new(int)); err == nil {
+			return SInt
+		}
+		return "" // bound variable of an uninstantiated quantifier, or unknown
+	}
+	var v, w int
+	if n, _ := fmt.Sscanf(t, "(_ bv%d %d)", &v, &w); n == 2 {
+		return SBV(w)
+	}
+	for _, op := range []string{"(bvadd ", "(bvsub ", "(bvmul "} {
+		if strings.HasPrefix(t, op) {
+			e1 := sexpEnd(t, len(op))
+			if e1 < 0 {
+				return ""
+			}
+			s1 := c.guessSort(t[len(op):e1], quants)
+			if s1 == "" || e1+1 >= len(t) {
+				return ""
+			}
+			e2 := sexpEnd(t, e1+1)
+			if e2 < 0 {
+				return ""
+			}
+			s2 := c.guessSort(t[e1+1:e2], quants)
+			if s2 != s1 {
+				return ""
+			}
+			return s1
+		}
+	}
+	return ""
+}
+
 // HasQuant reports whether a script text uses quantifiers.
 func hasQuant(s string) bool {
 	return strings.Contains(s, "(forall ") || strings.Contains(s, "(exists ")
@@ -551,4 +1026,20 @@ func (c *Ctx) addPre(key, line string) {
 	}
 	c.PreNames[key] = true
 	c.Preamble = append(c.Preamble, line)
+}
+
+// uLe: a <= b where a negative a counts as out of range (unsigned comparison in bv mode).
+func uLe(a, b Term) Term {
+	if gInt {
+		return mkAnd(Term{SBool, "(<= 0 " + a.T + ")"}, app(SBool, "bvule", a, b))
+	}
+	return app(SBool, "bvule", a, b)
+}
+
+// idxInRange: 0 <= i < n.
+func idxInRange(i, n Term) Term {
+	if gInt {
+		return mkAnd(Term{SBool, "(<= 0 " + i.T + ")"}, app(SBool, "bvult", i, n))
+	}
+	return app(SBool, "bvult", i, n)
 }
